@@ -38,6 +38,8 @@
 #include <stdint.h>
 #include "mjson.h"
 
+#define WATCHDOG_S 180.0   /* hang detection only (reported as infrastructure error), generous for loaded machines */
+
 static struct event_base *base;
 static struct evhttp *http;
 static int port;
@@ -165,7 +167,7 @@ static void settle(int want_head)
 			if (!alive && nsessions && !client_eof) busy = 1;      /* connection freed: EOF must arrive */
 		}
 		if (!busy) { if (++idle >= 2) break; } else idle = 0;
-		if (now_s() - t0 > 20.0) { watchdog = 1; break; }
+		if (now_s() - t0 > WATCHDOG_S) { watchdog = 1; break; }
 	}
 }
 
@@ -180,7 +182,7 @@ static void client_write(const unsigned char *p, size_t n)
 		if (r < 0 && (errno == EAGAIN || errno == EWOULDBLOCK)) {
 			event_base_loop(base, EVLOOP_NONBLOCK);
 			drain_client();
-			if (now_s() - t0 > 20.0) { watchdog = 1; break; }
+			if (now_s() - t0 > WATCHDOG_S) { watchdog = 1; break; }
 			continue;
 		}
 		wr_dead = 1; /* EPIPE / ECONNRESET: the peer is gone */
